@@ -304,6 +304,10 @@ def final_density_matrix(
             deferred = measurement_transformers.defer_measurements(noise_applied)
             dephased = measurement_transformers.dephase_measurements(deferred)
             program = dephased
+            # The requested order covers the circuit's own qubits; the ancillas that stand for the
+            # deferred measurements go behind them and are traced out below.
+            system = ops.QubitOrder.as_qubit_order(qubit_order).order_for(circuit_like.all_qubits())
+            qubit_order = system + tuple(sorted(dephased.all_qubits() - set(system)))
         elif ignore_measurement_results:
             # case 2: no classical control, only terminal measurement
             # Insert the noise first: it may depend on the measurement gates and on the moment
@@ -326,12 +330,12 @@ def final_density_matrix(
         result = density_result.final_density_matrix
 
         if handling_classical_control:
-            # assuming that the ancilla qubits from the transformations are at the end
-            keep = list(range(protocols.num_qubits(circuit_like)))
-            dephased_qid_shape = protocols.qid_shape(dephased)
+            # the ancilla qubits from the transformations are at the end of the order built above
+            keep = list(range(len(system)))
+            dephased_qid_shape = tuple(q.dimension for q in qubit_order)
             tensor_form = np.reshape(result, dephased_qid_shape + dephased_qid_shape)
             reduced_form = transformations.partial_trace(tensor_form, keep)
-            width = np.prod(protocols.qid_shape(circuit_like))
+            width = np.prod([q.dimension for q in system], dtype=int)
             result = np.reshape(reduced_form, (width, width))
 
         return result
